@@ -96,7 +96,7 @@ pub fn worker_main(part: &Part, a: &WorkerArgs) {
         CASE_STARTED_AT.store(now_ms(), Ordering::SeqCst);
         let cs = case_seed(a.seed, sc.name(), i);
         let want = stats.samples.len() < a.samples && (i / a.w) % 97 == 0;
-        let (v, trace) = sc.run_seed(cs, &mut stats, want);
+        let (v, trace) = sc.run_seed(i, cs, &mut stats, want);
         CASE_STARTED_AT.store(0, Ordering::SeqCst);
         stats.cases += 1;
         match v {
@@ -333,7 +333,7 @@ pub fn run_part(opts: &DriverOpts, part_idx: usize, part: &Part, panic_map: &dyn
                     let oracle = if timed_out[slot] == Some(i) { "hang".to_string() } else { format!("worker.died.{how}") };
                     let mut v = Violation::new(part.panic_prop, &oracle, format!("worker process ended ({how}) while running case {i}"));
                     v.message = how.clone();
-                    let trace = part.scenario_generate(cs);
+                    let trace = part.scenario_generate(i, cs);
                     found.push(Found { i, case_seed: cs, violation: v, trace, scenario: name.clone() });
                     timed_out[slot] = None;
                     if respawns[slot] < 25 {
@@ -367,10 +367,10 @@ fn clone_opts(o: &DriverOpts) -> DriverOpts {
 }
 
 impl Part {
-    pub fn scenario_generate(&self, cs: u64) -> Value {
+    pub fn scenario_generate(&self, i: u64, cs: u64) -> Value {
         // generate without executing: run_seed on a scenario would execute; engines expose
         // generation through shrink-free path below.
-        self.scenario.generate_value(cs)
+        self.scenario.generate_value(i, cs)
     }
 }
 
